@@ -34,8 +34,8 @@ import (
 // with gaps of 0 / 1 ns / 1 ms / 300 ms between requests (a window stays well inside 5 s); then
 // the window's save: the automatic one (6 s without requests) or, for the last window, a graceful
 // shutdown inside the cool-down. After every automatic save the file must hold the previous
-// on-disk set or the acknowledged set (never a third one: no deleted user written back, no
-// replaced key kept); after Stop it must hold the acknowledged set, and a fresh server on it must
+// on-disk set or a set that was acknowledged since (never anything else: no user written back
+// after its deletion was the last word, no mixture); when Stop returns it must hold the acknowledged set, and a fresh server on it must
 // accept exactly the acknowledged users' keys and refuse every key that was deleted or replaced.
 
 type burstWindow struct {
@@ -167,6 +167,7 @@ func runBurstPlan(t *testing.T, p burstPlan, dir string) (res burstResult) {
 	var prog progress
 	var history []string
 	var atStop []byte
+	var sinceCheck []map[string]int // acknowledged states since the file was last judged
 	violation := ""
 	disarm := realWatchdog(kind, p, &prog)
 	synctest.Test(t, func(t *testing.T) {
@@ -196,6 +197,7 @@ func runBurstPlan(t *testing.T, p burstPlan, dir string) (res burstResult) {
 				return false
 			}
 			state = applyModel(state, op)
+			sinceCheck = append(sinceCheck, state)
 			if op.Op != "delete" {
 				usedKeys[op.Key] = true
 			}
@@ -203,8 +205,12 @@ func runBurstPlan(t *testing.T, p burstPlan, dir string) (res burstResult) {
 			return true
 		}
 		onDisk := users(kl, p.Prev)
-		// after an automatic save the file holds the previous on-disk set or the acknowledged one
+		// After an automatic save the file holds the previous on-disk set or the set acknowledged when
+		// the save took its snapshot. With the 5 s cool-down that is the final set of the window; an
+		// implementation that saves more often may have stopped at an earlier acknowledged state of
+		// the window, which is accepted here (and judged when Stop returns).
 		judgeAuto := func(when string) bool {
+			defer func() { sinceCheck = nil }()
 			b, _ := os.ReadFile(path)
 			got, complete, derr := credx.DecodeStore(b, kl)
 			want := users(kl, state)
@@ -219,7 +225,13 @@ func runBurstPlan(t *testing.T, p burstPlan, dir string) (res burstResult) {
 			case credx.SameUsers(got, onDisk):
 				return true
 			}
-			violation = fmt.Sprintf("SIG=C20/saved-set-is-neither-previous-nor-acknowledged start on %s; %s; %s the store file holds %s, which is neither what was on disk before (%s) nor the acknowledged set %s: %s",
+			for _, st := range sinceCheck {
+				if credx.SameUsers(got, users(kl, st)) {
+					onDisk = got
+					return true
+				}
+			}
+			violation = fmt.Sprintf("SIG=C20/saved-set-is-neither-previous-nor-acknowledged start on %s; %s; %s the store file holds %s, which is neither what was on disk before (%s) nor the acknowledged set %s nor any set acknowledged in between: %s",
 				credx.Show(users(kl, p.Prev), kl), strings.Join(history, "; "), when, credx.Show(got, kl), credx.Show(onDisk, kl), credx.Show(want, kl), diffSets(got, want))
 			return false
 		}
@@ -287,7 +299,7 @@ var recBurst = ev.New("C20", "bursts-in-one-debounce-window",
 	"rapid, fake clock: store of 0-4 users; in 4 of 5 plans one change and its automatic save first; then 1-3 windows of 1-4 moves (rename keeping the key, rename "+
 		"with a new key, update-then-delete, delete-then-re-add with another / the same key, add-then-delete, add-then-update, key swap of two users, single "+
 		"add/update/delete) with gaps 0 / 1 ns / 1 ms / 300 ms, each window followed by its automatic save (6 s) or, the last one, by a graceful shutdown inside the "+
-		"cool-down. After each automatic save the file must hold the previous on-disk set or the acknowledged set; when Stop returns it must hold the acknowledged set and a "+
+		"cool-down. After each automatic save the file must hold the previous on-disk set or a set acknowledged since (with the 5 s cool-down: the final one); when Stop returns it must hold the acknowledged set and a "+
 		"fresh server must accept exactly those users' keys and refuse every deleted or replaced key (request + reply round trip). One evaluation = one plan. Non-trivial: "+
 		"a window with at least two requests follows an earlier automatic save. Distinct key = moves of all windows + save triggers").
 	Require("window-after-an-earlier-automatic-save", "deletes-with-at-least-as-many-adds", "deletes-outnumber-adds", "move/rename-same-key", "move/rename-new-key",
